@@ -365,3 +365,64 @@ Print Assumptions C02_settle_terminates.
 Example C02_settle_terminates_example st fuel :
   ex_inv st -> (1 < fuel)%nat -> snd (settle fuel 2 ex_tab ex_mods st) = true.
 Proof. exact (settle_terminates_example st fuel). Qed.
+
+(* ---------- syntactic acyclicity implies that the delta-cycle loop terminates (Model/DslAcyc.v, Proofs/DslAcycP.v) ---------- *)
+From V.Model Require Import DslAcyc.
+From V.Proofs Require Import DslAcycP.
+
+(* an expression's value depends only on the signals occurring in it *)
+Theorem C02_eval_rtl_ext c1 c2 e : (forall k, In k (reads e) -> c1 k = c2 k) -> eval_rtl c1 e = eval_rtl c2 e.
+Proof. exact (eval_rtl_ext c1 c2 e). Qed.
+Print Assumptions C02_eval_rtl_ext.
+Theorem C02_denote_ext c1 c2 e : (forall k, In k (reads e) -> c1 k = c2 k) -> denote c1 e = denote c2 e.
+Proof. exact (denote_ext c1 c2 e). Qed.
+Print Assumptions C02_denote_ext.
+
+(* statement execution: signals a statement does not assign are left alone; and if an assignment that assigns a signal
+   of Pn assigns only signals of Pn and reads (right-hand side, target selectors, tests of the Switches around it) only
+   signals of Pc, then two runs from `curr`s that agree on Pc and `next`s that agree on Pn agree on Pn afterwards *)
+Theorem C02_exec_frame c s n k : ~ In k (stmt_tsigs s) -> exec_rtl c s n k = n k.
+Proof. exact (exec_frame c s n k). Qed.
+Print Assumptions C02_exec_frame.
+Theorem C02_exec_reads_only_what_occurs Pc Pn c1 c2 s :
+  (forall k, Pc k = true -> c1 k = c2 k) -> targets_wf s = true -> resp Pc Pn s = true ->
+  forall n1 n2, (forall k, Pn k = true -> n1 k = n2 k) ->
+  forall k, Pn k = true -> exec_rtl c1 s n1 k = exec_rtl c2 s n2 k.
+Proof. exact (exec_agree Pc Pn c1 c2 s). Qed.
+Print Assumptions C02_exec_reads_only_what_occurs.
+
+(* the semantic termination theorem with a weaker hypothesis: a signal may depend on its own previous value as long as
+   a second delta does not change it once the lower ranks are unchanged *)
+Theorem C02_settle_terminates_weak n tab mods (Inv : slots -> Prop) (rank : nat -> nat) R :
+  (forall st, Inv st -> Inv (commit (run_comb tab mods st))) ->
+  (forall i, (i < n)%nat -> (rank i <= R)%nat) ->
+  (forall st i, Inv st -> (i < n)%nat -> rank i = 0%nat -> s_curr (commit (run_comb tab mods st)) i = s_curr st i) ->
+  (forall st i, Inv st -> (i < n)%nat -> (0 < rank i)%nat ->
+     (forall j, (j < n)%nat -> (rank j < rank i)%nat -> s_curr (commit (run_comb tab mods st)) j = s_curr st j) ->
+     s_curr (commit (run_comb tab mods (commit (run_comb tab mods st)))) i = s_curr (commit (run_comb tab mods st)) i) ->
+  forall st fuel, Inv st -> (R < fuel)%nat -> snd (settle fuel n tab mods st) = true.
+Proof. intros H1 H2 H3 H4 st fuel. exact (settle_terminates2 n tab mods Inv rank R H1 H2 H3 H4 st fuel). Qed.
+Print Assumptions C02_settle_terminates_weak.
+
+(* THE LINK: the decidable check acyclic_ok — signals < n; rank 0 exactly for the signals no comb statement can drive;
+   at most one module drives a signal; every comb assignment assigns signals of one rank r and reads (right-hand side,
+   target selectors, tests of the Switches around it) only signals of rank < r — implies that from any state without
+   pending changes (every state the run applies settle to) the loop converges whenever its fuel exceeds the largest rank *)
+Theorem C02_settle_terminates_acyclic n tab rank R mods : acyclic_ok n rank R mods = true ->
+  forall st fuel, (forall k, s_next st k = s_curr st k) -> (R < fuel)%nat -> snd (settle fuel n tab mods st) = true.
+Proof. exact (settle_terminates_acyclic n tab rank R mods). Qed.
+Print Assumptions C02_settle_terminates_acyclic.
+Theorem C02_settle_terminates_auto n tab mods R : acyclic_auto n mods = (true, R) ->
+  forall st fuel, (forall k, s_next st k = s_curr st k) -> (R < fuel)%nat -> snd (settle fuel n tab mods st) = true.
+Proof. exact (settle_terminates_auto n tab mods R). Qed.
+Print Assumptions C02_settle_terminates_auto.
+
+(* a 3-level design over two modules passes the check with ranks 1, 2, 3 (so 4 deltas settle it); a loop does not *)
+Example C02_acyclic_example :
+  acyclic_auto 4 ex3_mods = (true, 3%nat) /\ compute_rank 4 ex3_mods = [0; 1; 2; 3]%nat /\
+  (forall tab st, (forall k, s_next st k = s_curr st k) -> snd (settle 4 4 tab ex3_mods st) = true) /\
+  fst (acyclic_auto 3 [[[SAssign ex3_a (EOp1 ONot ex3_b); SAssign ex3_b ex3_a]]]) = false.
+Proof.
+  split; [exact (proj1 acyclic_example)|]. split; [exact (proj2 acyclic_example)|]. split; [|exact cyclic_example].
+  intros tab st H. apply (settle_terminates_auto 4 tab ex3_mods 3 (proj1 acyclic_example) st 4 H). repeat constructor.
+Qed.
